@@ -1,6 +1,7 @@
 (** C16 -- the invariant theorem: [inv] holds initially and is preserved by every call that
-    satisfies [guard_wf]; hence it holds in every state reached by guarded calls, and the
-    observation-level oracle [wf_b] accepts every such state. *)
+    satisfies [guard_wf] (= [alias_ok]: the only remaining class is the mutation of a graph that
+    a grammar uses as a rule's rhs); hence it holds in every state reached by such calls, and
+    the observation-level oracle [wf_b] accepts every such state. *)
 From Coq Require Import List Arith Bool Lia.
 Import ListNotations.
 Require Import Fggs.Model.GraphAPI Fggs.Proofs.GraphAPI_assoc Fggs.Proofs.GraphAPI_wf
@@ -94,10 +95,9 @@ Qed.
 
 Lemma h_copy_inv : forall os x x' news,
     inv_os os -> hrg_ok os x -> h_copy os x = inl (x', news) ->
-    (forall r, In r (rules_of (OH x)) -> match get_graph os (r_rhs r) with Some g => plain_copy_ok g = true | None => True end) ->
     inv_os (os ++ OH x' :: news).
 Proof.
-  intros os x x' news I OK E GD. unfold h_copy in E.
+  intros os x x' news I OK E. unfold h_copy in E.
   destruct (h_new (h_fgg x) (SLabel (h_start x))) as [[c|] r0] eqn:E0.
   2:{ destruct r0; discriminate. }
   destruct (copy_groups os (S (length os)) (h_rules x)) as [[gs news0]|] eqn:E1; [|discriminate].
@@ -116,8 +116,7 @@ Proof.
     + intros k rs' r' H1 H2. destruct (B _ _ _ H1 H2) as (rs & H3 & _ & (r & g & c0 & Hr & Hl & Hg & Hc & Hro & Hb & Hn)).
       destruct (R _ _ _ H3 Hr) as [RG (g1 & Hg1 & Ty1 & Ed1)].
       rewrite Hg in Hg1. inversion Hg1; subst g1.
-      pose proof (GD r (in_rules_of _ _ _ _ H3 Hr)) as PG. rewrite Hg in PG.
-      destruct (g_copy_ok g c0 (get_graph_ok _ _ _ I Hg) Hc PG) as (OKc & Xc & Edc).
+      destruct (g_copy_ok g c0 (get_graph_ok _ _ _ I Hg) Hc) as (OKc & Xc & Edc & _).
       split; [unfold registered in *; cbn; rewrite Hl; exact RG|].
       exists c0. split; [|split].
       * unfold get_graph. rewrite nth_error_app2 by lia.
@@ -127,8 +126,7 @@ Proof.
       * intros k0 e0 He. unfold registered. cbn. apply (Ed1 k0 e0). apply Edc. assumption.
   - (* the copies of the rhs graphs *)
     destruct (D _ Ho) as (k & rs & H1 & (r & g & c0 & -> & Hr & Hg & Hc)).
-    pose proof (GD r (in_rules_of _ _ _ _ H1 Hr)) as PG. rewrite Hg in PG.
-    cbn. apply (g_copy_ok g c0 (get_graph_ok _ _ _ I Hg) Hc PG).
+    cbn. apply (g_copy_ok g c0 (get_graph_ok _ _ _ I Hg) Hc).
 Qed.
 
 (** * the step theorem *)
@@ -195,7 +193,6 @@ Proof. intros s o I H. apply inv_app; [exact I|]. intros o' [<-|[]]. apply H. Qe
 Lemma mk_edge_inv : forall s c h l ns i,
     inv s ->
     (forall g, get_graph (objs s) h = Some g -> snd (mk_edge_and_add l ns i g) = ROk ->
-               nodes_consistent (g_nodes g) ns = true /\
                forallb (fun x => forallb (fun r => negb (Nat.eqb (r_rhs r) h) ||
                                           match aget Nat.eq_dec (t_el (tab_of x)) (el_name l) with
                                           | Some l' => elabel_eqb l' l
@@ -217,12 +214,12 @@ Proof.
   destruct (lnat_eq_dec (el_ty l) (map n_label ns)) as [TY|]; [|exact SAME].
   set (e := Edge l ns i) in *.
   split.
-  - apply g_add_edge_ok; [assumption | exact TY|]. intros R. apply GD. assumption.
+  - apply g_add_edge_ok; [assumption | exact TY].
   - intros j x rs r ke Hj H1 H2 Eh. destruct SAME as [_ SAME]. destruct (SAME _ _ _ _ _ Hj H1 H2 Eh) as [T E].
-    destruct (g_add_edge_shape g e (gk_tab _ OK)) as [SX SE]. split.
+    destruct (g_add_edge_shape g e) as [SX SE]. split.
     + unfold g_type. rewrite SX. assumption.
     + intros k e0 He. destruct (SE _ _ He) as [X|[-> R]]; [eapply E; eauto|].
-      destruct (GD R) as [_ AL]. rewrite forallb_forall in AL.
+      pose proof (GD R) as AL. rewrite forallb_forall in AL.
       specialize (AL (OH x) (nth_error_In _ _ Hj)). rewrite forallb_forall in AL.
       specialize (AL r (in_rules_of _ _ _ _ H1 H2)). rewrite Eh, Nat.eqb_refl in AL. cbn in AL.
       unfold registered. cbn. destruct (aget Nat.eq_dec (t_el (h_tab x)) (el_name l)) as [l'|]; [|discriminate].
@@ -231,9 +228,7 @@ Qed.
 
 Theorem step_inv : forall s o, inv s -> guard_wf s o = true -> inv (fst (step s o)).
 Proof.
-  intros s o I G. unfold guard_wf in G.
-  apply andb_true_iff in G. destruct G as [G G4]. apply andb_true_iff in G. destruct G as [G G3].
-  apply andb_true_iff in G. destruct G as [G1 G2].
+  intros s o I G3. unfold guard_wf in G3.
   destruct o; cbn [step].
   - (* NewGraph *) apply inv_new; [assumption | intros; apply empty_graph_ok].
   - (* NewFactorGraph *) apply inv_new; [assumption | intros; apply empty_graph_ok].
@@ -254,60 +249,55 @@ Proof.
     pose proof (add_node_grows g (Node l i')) as GR.
     split; [apply g_add_node_ok; assumption|]. rewrite (gr_ext _ _ GR), (gr_edges _ _ GR). auto.
   - (* RemoveNode *)
-    cbn in G2. apply on_graph_inv; [assumption|]. intros g Hg. rewrite Hg in G2.
-    pose proof (get_graph_ok _ _ _ I Hg) as OK.
+    apply on_graph_inv_same; [assumption|]. intros g OK.
     destruct (g_remove_node_same g n) as [SE SX].
-    split; [apply g_remove_node_ok; assumption|].
-    intros j x rs r ke Hj H1 H2 Eh.
-    pose proof (I _ _ Hj) as Ho. cbn in Ho. destruct (hk_rules _ _ Ho _ _ _ H1 H2) as [R (g1 & Hg1 & T & E)].
-    rewrite Eh, Hg in Hg1. inversion Hg1; subst g1. unfold g_type. rewrite SX, SE. split; assumption.
+    split; [apply g_remove_node_ok; assumption|]. rewrite SE, SX. auto.
   - (* AddEdge *)
-    cbn in G1, G3. unfold resolved in *.
+    cbn in G3. unfold resolved in *.
     destruct (resolve (ctr s) ns) as [ns' c] eqn:ER. destruct (resolve_id c i) as [i' c'] eqn:EI.
     cbn [fst] in *. apply mk_edge_inv; [assumption|]. intros g Hg R.
-    rewrite Hg in G1.
     assert (RS : snd (on_graph s c' h (mk_edge_and_add l ns' i')) = ROk).
     { unfold on_graph. rewrite Hg. destruct (mk_edge_and_add l ns' i' g). exact R. }
-    rewrite RS in G1, G3. cbn in G1, G3. split; assumption.
+    rewrite RS in G3. cbn in G3. assumption.
   - (* NewEdge *)
-    cbn in G1, G3. unfold resolved in *.
+    cbn in G3. unfold resolved in *.
     destruct (resolve (ctr s) ns) as [ns' c] eqn:ER. destruct (resolve_id c i) as [i' c'] eqn:EI.
     cbn [fst] in *.
     destruct ((t && nt) || (negb t && negb nt)); [exact I|].
     apply mk_edge_inv; [assumption|]. intros g Hg R.
-    rewrite Hg in G1.
     assert (RS : snd (on_graph s c' h (mk_edge_and_add (EL name (map n_label ns') t) ns' i')) = ROk).
     { unfold on_graph. rewrite Hg. destruct (mk_edge_and_add _ ns' i' g). exact R. }
-    rewrite RS in G1, G3. cbn in G1, G3. split; assumption.
+    rewrite RS in G3. cbn in G3. assumption.
   - (* RemoveEdge *)
     apply on_graph_inv_same; [assumption|]. intros g OK.
     split; [apply g_remove_edge_ok; assumption|]. split; [|apply g_remove_edge_edges].
     unfold g_remove_edge. destruct (negb (amem ident_eq_dec (g_edges g) (e_id e))); reflexivity.
   - (* SetExt *)
-    cbn in G1, G3. unfold resolved in *.
+    cbn in G3. unfold resolved in *.
     destruct (resolve (ctr s) ns) as [ns' c] eqn:ER. cbn [fst] in *.
-    apply on_graph_inv; [assumption|]. intros g Hg. rewrite Hg in G1.
+    apply on_graph_inv; [assumption|]. intros g Hg.
     pose proof (get_graph_ok _ _ _ I Hg) as OK.
     split; [apply g_set_ext_ok; assumption|].
     intros j x rs r ke Hj H1 H2 Eh.
     pose proof (I _ _ Hj) as Ho. cbn in Ho. destruct (hk_rules _ _ Ho _ _ _ H1 H2) as [R (g1 & Hg1 & T & E)].
     rewrite Eh, Hg in Hg1. inversion Hg1; subst g1.
-    rewrite forallb_forall in G3. specialize (G3 (OH x) (nth_error_In _ _ Hj)).
-    rewrite forallb_forall in G3. specialize (G3 r (in_rules_of _ _ _ _ H1 H2)).
-    rewrite Eh, Nat.eqb_refl in G3. cbn in G3.
-    destruct (lnat_eq_dec (el_ty (r_lhs r)) (map n_label ns')); [|discriminate].
-    split; [cbn; assumption|].
-    cbn. rewrite (gr_edges _ _ (add_missing_grows ns' g)). assumption.
+    destruct (g_set_ext_shape g ns') as [SE [[RO SX]|[RE SI]]].
+    + assert (RS : snd (on_graph s c h (fun g => g_set_ext g ns')) = ROk).
+      { unfold on_graph. rewrite Hg. destruct (g_set_ext g ns'). exact RO. }
+      rewrite RS in G3. cbn in G3.
+      rewrite forallb_forall in G3. specialize (G3 (OH x) (nth_error_In _ _ Hj)).
+      rewrite forallb_forall in G3. specialize (G3 r (in_rules_of _ _ _ _ H1 H2)).
+      rewrite Eh, Nat.eqb_refl in G3. cbn in G3.
+      destruct (lnat_eq_dec (el_ty (r_lhs r)) (map n_label ns')); [|discriminate].
+      split; [unfold g_type; rewrite SX; assumption|]. rewrite SE. assumption.
+    + rewrite SI. split; assumption.
   - (* Copy *)
-    cbn in G4.
     destruct (nth_error (objs s) h) as [[g|x]|] eqn:N; [| |exact I].
     + destruct (g_copy g) as [c|] eqn:C; [|exact I].
       apply inv_new; [assumption|]. intros os. cbn.
-      apply (g_copy_ok g c (I _ _ N) C G4).
+      apply (g_copy_ok g c (I _ _ N) C).
     + destruct (h_copy (objs s) x) as [[c news]|] eqn:C; [|exact I].
-      cbn in G4. unfold inv. cbn. eapply h_copy_inv; eauto; [apply (I _ _ N)|].
-      intros r Hr. rewrite forallb_forall in G4. specialize (G4 r Hr).
-      destruct (get_graph (objs s) (r_rhs r)); [assumption | exact Logic.I].
+      unfold inv. cbn. eapply h_copy_inv; eauto. apply (I _ _ N).
   - (* MkRule *)
     destruct (get_graph (objs s) g); exact I.
   - (* AddRule *)
